@@ -411,6 +411,11 @@ class Driver:
                 x = rng.uniform(x0, x1)
             return {"x": float(x), "y": float(rng.uniform(y0, y1))}
         ok = np.argwhere(~np.isnan(m.Fn))
+        if len(ok) and rng.random() < 0.8:
+            # most of the time aim at poles that are inside the current view (a click outside the axes is a stray)
+            vis = [rc for rc in ok if min(x0, x1) <= m.Fn[tuple(rc)] <= max(x0, x1) and min(y0, y1) + 0.3 <= rc[1] <= max(y0, y1) - 0.3]
+            if vis:
+                ok = np.array(vis)
         if r < 0.70 and len(ok):
             # near a retained pole; biased to descending frequency order half of the time
             if self.swarm.get("descending") and m.n_picks and rng.random() < 0.7:
